@@ -149,8 +149,10 @@ def lit(v):
         if not v:
             raise NoLiteral(v)
         if all(isinstance(r, list) for r in v):
-            if len(v) != 2 or any(isinstance(x, list) for r in v for x in r) or any(len(r) < 2 for r in v):    # '{1;2}' is a flat list, not two rows
+            if any(isinstance(x, list) for r in v for x in r) or any(len(r) < 1 for r in v):
                 raise NoLiteral(v)
+            if len(v) != 2 or any(len(r) < 2 for r in v):    # '{1;2}' is a flat list, not two rows; one row, three rows... are written with inner braces
+                return '{' + ','.join('{' + ','.join(lit(x) for x in r) + '}' for r in v) + '}'
             return '{' + ';'.join(','.join(lit(x) for x in r) for r in v) + '}'
         if any(isinstance(x, list) for x in v):
             return '{' + ','.join(lit(x) for x in v) + '}'
